@@ -253,14 +253,15 @@ def _():
 spec("Roots", "quadraticRoots", ["a", "b", "c"], None, "utils.quadraticRoots")(lambda: list(bu.quadraticRoots(V("a"), V("b"), V("c"))))
 
 
-def _capture_qr(module, f):
-    """Run f with `quadraticRoots` in `module` replaced by a recorder; returns the argument triples."""
+def _capture_qr(module, f, ret=()):
+    """Run f with `quadraticRoots` in `module` replaced by a recorder; returns the argument triples.
+    `ret`: what the recorder answers (a non-empty answer keeps callers out of their no-root fall-backs, which are modelled by hand)."""
     calls = []
     orig = module.quadraticRoots
 
     def rec(a, b, c, *rest, **kw):
         calls.append((a, b, c))
-        return []
+        return list(ret)
     module.quadraticRoots = rec
     try:
         f()
@@ -337,7 +338,7 @@ spec("Roots", "cubic_findRoots_dispatch", pp("p0", "p1", "p2", "p3"), "list",
 spec("Roots", "cubic_cardano_roots", pp("p0", "p1", "p2", "p3"), "list",
      "the closed-form roots CubicBezier._findRoots('y') hands to _polishRoots ([] in the quadratic fallbacks)", collapse=True)(lambda: _cubic_pre("cardano"))
 spec("Roots", "quad_tOfPoint_coeffs", pp("p0", "p1", "p2", "q"), ["ax", "bx", "cx", "ay", "by", "cy"],
-     "arguments QuadraticBezier.tOfPoint passes to quadraticRoots (x then y)")(lambda: _capture_qr(qbm, lambda: quad().tOfPoint(P("q"))))
+     "arguments QuadraticBezier.tOfPoint passes to quadraticRoots (x then y)")(lambda: _capture_qr(qbm, lambda: quad().tOfPoint(P("q")), ret=(0.5,)))
 
 # =============================================================================== Curv (C18)
 
